@@ -83,7 +83,7 @@ func init() {
 	addCheck(&CheckSpec{
 		Property: "C15", Level: "exploration", OwnsPanics: true,
 		Rule:        "queryevent scenario: call handlers start 1-4 query events per run on resources in shared groups; the peer sends query requests (valid, missing query, malformed JSON) at tape-chosen instants relative to expiry: well inside the window, buffered in the subscription channel when the timer fires, after the drain was requested, more than the channel holds at once; callbacks reply with model/collection/events/errors, panic with each value kind or do nothing; the query subscription fails for some; expiry by advancing the simulated clock (50 ms, 1 s, 3 s durations).",
-		Oracle:      "each query request delivered while the event was active gets exactly one response of the predicted kind (error for missing query or malformed payload); callbacks run under the C01 occupancy counter of the resource's group; after expiry the callback was invoked with nil exactly once, not before the configured duration, and no invocation with a request starts after it; a failed subscription yields exactly one nil call and no query event; after everything settled and the service was shut down no goroutine of the process is inside startQueryListener; core scenario (restarts): no two query events of a run, across Serve calls, are announced with the same subject.",
+		Oracle:      "each query request delivered while the event was active gets exactly one response of the predicted kind (error for missing query or malformed payload); callbacks run under the C01 occupancy counter of the resource's group; after expiry the callback was invoked with nil exactly once, not before the configured duration, and no invocation with a request starts after it; a failed subscription yields exactly one nil call and no query event; after everything settled and the service was shut down no goroutine started by the go-res root package is left; core scenario (restarts): no two query events of a run, across Serve calls, are announced with the same subject.",
 		Scen:        []ScenBudget{{"queryevent", 12000, 250000}, {"core", 3000, 60000}, {"tierb", 300, 15000}},
 		Assumptions: []string{"tier A cannot observe Subscription.Drain on the zero-value subscription it hands out; the server-side effect of Drain is emulated at the instrumented point directly after the Drain call"},
 	})
